@@ -679,7 +679,7 @@ func init() {
 	register(&Prop{
 		ID: "C05", Level: "exploration", QuickS: 25, ThoroughS: 420,
 		Rule:       "seeded simple-query histories (1-6 Query messages, pipelined / one per quiescence point / grouped, random segmentation) whose query texts map to generated handler programs (parser error, 0/1/many statements, 0-4 typed columns, good / wrong-arity / unencodable rows, Written() reads, Complete, calls after completion, error return at any position); a share of cases cancels the session context (derived by a session middleware, as a session time limit would) while one statement of a multi-statement query runs: the cycle must still be all results in order or results of a prefix plus exactly one ErrorResponse, never a silently shortened result; variants: a statement cancels the middleware-derived session context (optionally letting simulated time pass before it goes on writing) - nothing of a query may arrive after its ReadyForQuery; E2: Server.Close pinned inside a running query of 1-3 statements - the admitted query is answered in full with one ReadyForQuery; non-trivial = at least one result-writer operation was executed and judged; distinct = distinct case content hashes",
-		Components: e1Components, Assumptions: commonAssumptions,
+		Components: append(append([]string{}, e1Components...), "E2 share (the variants that pin Server.Close or other connections against a running session): seeded scheduler harness/kernel.go decides every interleaving of connection goroutines and Close callers at transport operations, callbacks, hand-placed hooks and spliced synchronisation points"), Assumptions: commonAssumptions,
 		Gen: func(r *Rand, tier string) *Case {
 			if r.Chance(1, 25) {
 				return genC05Cancel(r)
@@ -847,7 +847,7 @@ func init() {
 	register(&Prop{
 		ID: "C18", Level: "exploration", QuickS: 25, ThoroughS: 420,
 		Rule:       "seeded sessions in which every callback retains what it is given (validator: database/user/password strings and the client-parameter map it finds in its context; parser: query string and that map; statement functions: Parameter.Value() slices and the client-parameter strings) together with a private deep copy taken at receipt; the rest of the session stresses read-buffer reuse: messages of body size 1, 4090..4100, 8191/8192, L-5, L-1, L, oversized messages skipped in several chunks, stray CopyData of those sizes, COPY streams, long runs of small messages; after every later callback and at connection end each retained value must equal its copy; a pass-through auth strategy watches cap(Reader.Msg) so that the probes reset_reused_tail / reset_reallocated show the mechanism was reached; E2 variant: Server.Close runs while the connection is open and the client keeps sending messages of sizes around the granule, which are only drained; non-trivial = at least one value was retained and at least two later messages were processed; distinct = distinct case content hashes",
-		Components: e1Components, Assumptions: commonAssumptions,
+		Components: append(append([]string{}, e1Components...), "E2 share (the variants that pin Server.Close or other connections against a running session): seeded scheduler harness/kernel.go decides every interleaving of connection goroutines and Close callers at transport operations, callbacks, hand-placed hooks and spliced synchronisation points"), Assumptions: commonAssumptions,
 		Gen: func(r *Rand, tier string) *Case {
 			if r.Chance(1, 30) {
 				return genC18Close(r)
